@@ -225,7 +225,9 @@ func specs() []spec {
 		{"TouchTempFileInTempDir", cCond, roMut, func(e *env) outcome { _, err := e.fs.TouchTempFileInTempDir("c07tmp"); return oe(err) }},
 		// ---- copy / move
 		{"Copy", cFail, roMut, func(e *env) outcome { return oe(e.fs.Copy(e.f, e.fresh())) }},
-		{"Copy#into-existing-dir", cFail, roMut, func(e *env) outcome { return oe(e.fs.Copy(e.f, e.d)) }},
+		// e.d is the parent of e.f: the copy resolves onto the file itself, which the library treats as a no-op (it used to
+		// truncate the source on a writable filesystem); nothing is mutated, so the read-only sweep does not judge the result.
+		{"Copy#onto-itself-through-its-directory", cFail, roNone, func(e *env) outcome { return oe(e.fs.Copy(e.f, e.d)) }},
 		{"CopyWithContext", cFail, roMut, func(e *env) outcome { return oe(e.fs.CopyWithContext(e.ctx, e.f, e.fresh())) }},
 		{"CopyWithContextAndExclusionPatterns", cFail, roMut, func(e *env) outcome {
 			return oe(e.fs.CopyWithContextAndExclusionPatterns(e.ctx, e.f, e.fresh()))
